@@ -11,6 +11,7 @@ package main
 import (
 	"fmt"
 	"go/ast"
+	"go/parser"
 	"go/token"
 	"go/types"
 	"sort"
@@ -577,4 +578,347 @@ func runPrematureUse(p *Prog, r *Report) {
 	r.Counts["E16.default-then-override-idioms"] = nIdiom
 	r.ExpectMin("E16.default-then-override-idioms", nIdiom, 3)
 	r.Clauses = append(r.Clauses, "E16.premature-use: a local with a default and one conditional override in a later sibling if is not read between the two when it is read after the override")
+}
+
+// E15.conversion-direction — cty conversion checks ask "can a value of the produced type be
+// used where the constraint's type is expected": the constraint's type (anything read from the
+// receiver's `cons` field) is the *target* of convert.Convert / convert.GetConversion, never
+// the source. The two directions agree for equal and dynamic types and differ exactly for the
+// asymmetric conversions (number→string, bool→string, tuple→list …).
+func runConversionDirection(p *Prog, r *Report) {
+	n := 0
+	callers := buildCallersCached(p)
+	// is e (in fn) read from the receiver's constraint? follows single-definition locals and,
+	// for parameters of unexported functions, every call site's argument.
+	var fromCons func(fn *Func, e ast.Expr, depth int) bool
+	fromCons = func(fn *Func, e ast.Expr, depth int) bool {
+		if depth > 3 {
+			return false
+		}
+		info := fn.Info()
+		e = ast.Unparen(e)
+		hit := false
+		ast.Inspect(e, func(z ast.Node) bool {
+			if hit {
+				return false
+			}
+			if sel, ok := z.(*ast.SelectorExpr); ok && canonId(sel.Sel.Name) == "cons" {
+				hit = true
+				return false
+			}
+			if id, ok := z.(*ast.Ident); ok {
+				v, isVar := info.ObjectOf(id).(*types.Var)
+				if !isVar || v.IsField() {
+					return true
+				}
+				if def := fn.SingleDef(v); def != nil {
+					if fromCons(fn, def, depth+1) {
+						hit = true
+					}
+					return true
+				}
+				root := rootOf(fn)
+				if root.Obj != nil && root.isParam(v) && !root.Obj.Exported() {
+					sig := root.Obj.Type().(*types.Signature)
+					idx := -1
+					for i := 0; i < sig.Params().Len(); i++ {
+						if sig.Params().At(i) == v {
+							idx = i
+						}
+					}
+					sites := callers[root.Obj]
+					if idx >= 0 && len(sites) > 0 {
+						all := true
+						for _, cs := range sites {
+							if idx >= len(cs.call.Args) || !fromCons(cs.fn, cs.call.Args[idx], depth+1) {
+								all = false
+							}
+						}
+						if all {
+							hit = true
+						}
+					}
+				}
+			}
+			return true
+		})
+		return hit
+	}
+	for _, fn := range p.Funcs {
+		if fn.Body == nil {
+			continue
+		}
+		info := fn.Info()
+		ast.Inspect(fn.Body, func(z ast.Node) bool {
+			if lit, ok := z.(*ast.FuncLit); ok && lit != fn.Lit {
+				return false
+			}
+			call, ok := z.(*ast.CallExpr)
+			if !ok {
+				return true
+			}
+			full := calleeFull(info, call)
+			var src, dst ast.Expr
+			switch full {
+			case "github.com/zclconf/go-cty/cty/convert.Convert":
+				if len(call.Args) == 2 {
+					src, dst = call.Args[0], call.Args[1]
+				}
+			case "github.com/zclconf/go-cty/cty/convert.GetConversion", "github.com/zclconf/go-cty/cty/convert.GetConversionUnsafe":
+				if len(call.Args) == 2 {
+					src, dst = call.Args[0], call.Args[1]
+				}
+			}
+			if src == nil {
+				return true
+			}
+			n++
+			key := "call " + full[strings.LastIndex(full, "/")+1:] + "(" + short(exprStr(src), 30) + ", " + short(exprStr(dst), 30) + ")"
+			if fromCons(fn, src, 0) && !fromCons(fn, dst, 0) {
+				r.Add("E15.conversion-direction", fn.Name, key, p.Pos(call), Violated,
+					"the conversion's source is read from the constraint ("+exprStr(src)+") and its target is not: the check asks whether the expected type converts to the produced one, which differs from the intended direction for number→string, bool→string and similar one-way conversions", true)
+			} else {
+				r.Add("E15.conversion-direction", fn.Name, key, p.Pos(call), OK, "the constraint's type is not the source of the conversion", true)
+			}
+			return true
+		})
+	}
+	r.Counts["E15.conversion-checks"] = n
+	r.ExpectMin("E15.conversion-checks", n, 3)
+	r.Clauses = append(r.Clauses, "E15.conversion-direction: a type read from the receiver's constraint is never the source of a cty conversion check")
+}
+
+// E15.resumed-search — an inner search loop that starts where the previous outer iteration's
+// match was found (`for i := next; …; i++ { … next = i + 1 … }`) never compares the elements
+// before that point again; it is only right for two sequences known to be ordered alike, which
+// nothing in the code establishes.
+func runResumedSearch(p *Prog, r *Report) {
+	nLoops := 0
+	for _, fn := range p.Funcs {
+		if fn.Body == nil || fn.Lit != nil {
+			continue
+		}
+		loops, hits := resumedSearchIn(fn.Info(), fn.Body)
+		nLoops += loops
+		for _, h := range hits {
+			r.Add("E15.resumed-search", fn.Name, "for "+h.idx+" := "+h.start, p.Pos(h.loop), Violated,
+				"the inner loop starts at "+h.start+", which it advances itself and which is kept across iterations of the enclosing loop: elements before the previous match are never examined again", true)
+		}
+	}
+	// the rule expects no instance on the reviewed tree: a built-in positive example keeps it
+	// from passing vacuously
+	const sample = `package p
+func f(xs, ys []int) int {
+	next, n := 0, 0
+	for _, y := range ys {
+		for i := next; i < len(xs); i++ {
+			if xs[i] == y {
+				next = i + 1
+				n++
+				break
+			}
+		}
+	}
+	return n
+}`
+	fset := token.NewFileSet()
+	selfOK := false
+	if f, err := parser.ParseFile(fset, "sample.go", sample, 0); err == nil {
+		info := &types.Info{Defs: map[*ast.Ident]types.Object{}, Uses: map[*ast.Ident]types.Object{}, Types: map[ast.Expr]types.TypeAndValue{}}
+		if _, err := (&types.Config{}).Check("p", fset, []*ast.File{f}, info); err == nil {
+			for _, d := range f.Decls {
+				if fd, ok := d.(*ast.FuncDecl); ok {
+					if _, hits := resumedSearchIn(info, fd.Body); len(hits) == 1 {
+						selfOK = true
+					}
+				}
+			}
+		}
+	}
+	if selfOK {
+		r.Add("E15.resumed-search", "self-test", "built-in positive example", "-", OK, "the rule reports the built-in resumed-search example", false)
+	} else {
+		r.Add("E15.resumed-search", "self-test", "built-in positive example", "-", Undecided, "the rule no longer reports its built-in positive example", false)
+	}
+	r.Counts["E15.loops-examined-for-resumed-search"] = nLoops
+	r.ExpectMin("E15.loops-examined-for-resumed-search", nLoops, 100)
+	r.Clauses = append(r.Clauses, "E15.resumed-search: no inner search loop starts at an index it advances itself across iterations of an enclosing loop")
+}
+
+type resumedHit struct {
+	loop       *ast.ForStmt
+	idx, start string
+}
+
+// resumedSearchIn: loops examined and the resumed-search loops among them.
+func resumedSearchIn(info *types.Info, body *ast.BlockStmt) (int, []resumedHit) {
+	n := 0
+	var hits []resumedHit
+	var stack []ast.Node
+	ast.Inspect(body, func(z ast.Node) bool {
+		if z == nil {
+			stack = stack[:len(stack)-1]
+			return true
+		}
+		stack = append(stack, z)
+		switch z.(type) {
+		case *ast.ForStmt, *ast.RangeStmt:
+			n++
+		}
+		fs, ok := z.(*ast.ForStmt)
+		if !ok {
+			return true
+		}
+		init, ok := fs.Init.(*ast.AssignStmt)
+		if !ok || len(init.Lhs) != 1 || len(init.Rhs) != 1 {
+			return true
+		}
+		sid, ok := ast.Unparen(init.Rhs[0]).(*ast.Ident)
+		if !ok {
+			return true
+		}
+		sv, ok := info.ObjectOf(sid).(*types.Var)
+		if !ok || sv.IsField() {
+			return true
+		}
+		assignedInside := false
+		ast.Inspect(fs.Body, func(m ast.Node) bool {
+			switch a := m.(type) {
+			case *ast.AssignStmt:
+				for _, l := range a.Lhs {
+					if id, ok := ast.Unparen(l).(*ast.Ident); ok && info.ObjectOf(id) == sv {
+						assignedInside = true
+					}
+				}
+			case *ast.IncDecStmt:
+				if id, ok := ast.Unparen(a.X).(*ast.Ident); ok && info.ObjectOf(id) == sv {
+					assignedInside = true
+				}
+			}
+			return true
+		})
+		nested := false
+		for _, c := range stack[:len(stack)-1] {
+			switch c.(type) {
+			case *ast.ForStmt, *ast.RangeStmt:
+				if sv.Pos() < c.Pos() {
+					nested = true
+				}
+			}
+		}
+		if assignedInside && nested {
+			hits = append(hits, resumedHit{fs, types.ExprString(init.Lhs[0]), sid.Name})
+		}
+		return true
+	})
+	return n, hits
+}
+
+// E8.own-expression — the position induction of hover/completion/tokens rests on "the
+// receiver's expr is the expression this value was constructed for (and that contains the
+// cursor)". No method of an expression type may therefore re-point its own `expr` (or `cons`).
+func runOwnExprImmutable(p *Prog, r *Report) {
+	n := 0
+	for _, fn := range p.Funcs {
+		if fn.Body == nil || !strings.HasSuffix(fn.Pkg.PkgPath, "hcl-lang/decoder") {
+			continue
+		}
+		root := rootOf(fn)
+		rv := recvObj(root)
+		if rv == nil {
+			continue
+		}
+		st, ok := derefType(rv.Type()).Underlying().(*types.Struct)
+		if !ok {
+			continue
+		}
+		hasExpr := false
+		for i := 0; i < st.NumFields(); i++ {
+			if canonId(st.Field(i).Name()) == "expr" {
+				hasExpr = true
+			}
+		}
+		if !hasExpr {
+			continue
+		}
+		if fn.Lit == nil {
+			n++
+		}
+		info := fn.Info()
+		ast.Inspect(fn.Body, func(z ast.Node) bool {
+			if lit, ok := z.(*ast.FuncLit); ok && lit != fn.Lit {
+				return false
+			}
+			as, ok := z.(*ast.AssignStmt)
+			if !ok {
+				return true
+			}
+			for _, l := range as.Lhs {
+				sel, ok := ast.Unparen(l).(*ast.SelectorExpr)
+				if !ok || !isIdentObj(info, sel.X, rv) {
+					continue
+				}
+				if nm := canonId(sel.Sel.Name); nm == "expr" || nm == "cons" {
+					r.Add("E8.own-expression", root.Name, exprStr(l)+" reassigned", p.Pos(as), Violated,
+						"the method replaces its receiver's "+nm+": everything below reasons about (and reports the range of) an expression other than the one this value was built for, without a positional test of the cursor against it", true)
+				}
+			}
+			return true
+		})
+	}
+	r.Counts["E8.expression-methods"] = n
+	r.ExpectMin("E8.expression-methods", n, 50)
+	r.Clauses = append(r.Clauses, "E8.own-expression: no method of an expression type assigns its receiver's expr/cons field")
+}
+
+// E11.lookup-block — the dependent-body lookup reads dependency keys from the block's labels
+// *and* from the attributes of its body: the block handed to it must be the parsed block
+// (AsHCLBlock() / a block of a decoded body), not a header-only reconstruction.
+func runLookupBlockComplete(p *Prog, r *Report) {
+	n := 0
+	for _, fn := range p.Funcs {
+		if fn.Body == nil {
+			continue
+		}
+		info := fn.Info()
+		ast.Inspect(fn.Body, func(z ast.Node) bool {
+			if lit, ok := z.(*ast.FuncLit); ok && lit != fn.Lit {
+				return false
+			}
+			call, ok := z.(*ast.CallExpr)
+			if !ok {
+				return true
+			}
+			f := calleeOf(info, call)
+			if f == nil || (fname(f) != "DependentBodySchema" && fname(f) != "MergeBlockBodySchemas") || p.FuncOf[f] == nil {
+				return true
+			}
+			for _, a := range call.Args {
+				if !typeIsPtrTo(info.TypeOf(a), "hcl/v2", "Block") {
+					continue
+				}
+				n++
+				src := ast.Unparen(a)
+				if id, ok := src.(*ast.Ident); ok {
+					if def := fn.SingleDef(info.ObjectOf(id)); def != nil {
+						src = ast.Unparen(def)
+					}
+				}
+				if u, ok := src.(*ast.UnaryExpr); ok && u.Op == token.AND {
+					src = ast.Unparen(u.X)
+				}
+				key := "call " + fname(f) + "(" + short(exprStr(a), 30) + ")"
+				if cl, ok := src.(*ast.CompositeLit); ok && litField(cl, "Body") == nil {
+					r.Add("E11.lookup-block", fn.Name, key, p.Pos(call), Violated,
+						"the block passed to the dependent-body lookup is built here without its Body: dependency keys that are attributes cannot be read, so a different (or no) dependent body is selected than for the same block elsewhere", true)
+				} else {
+					r.Add("E11.lookup-block", fn.Name, key, p.Pos(call), OK, "the parsed block is passed on", true)
+				}
+			}
+			return true
+		})
+	}
+	r.Counts["E11.lookup-block-arguments"] = n
+	r.ExpectMin("E11.lookup-block-arguments", n, 5)
+	r.Clauses = append(r.Clauses, "E11.lookup-block: every dependent-body lookup receives the parsed block (never a literal without Body)")
 }
